@@ -459,6 +459,11 @@ def main():
     if instrument is not None:
         inst_result = instrument.model_noise(
             model, model_res=model.model(), num_observations=num_obs)
+        if inst_result[-1] is None:
+            # The native grid (no manual binning) carries no bin widths
+            from taurex.util.util import compute_bin_edges
+            inst_result = tuple(inst_result[:-1]) + \
+                (compute_bin_edges(inst_result[0])[1],)
 
     # Observation on self
     if observation == 'self':
